@@ -1,0 +1,25 @@
+//go:build verif
+
+package promise
+
+// Contracts for the verif engine (/verif). Comment-only: no code is compiled
+// from this file with or without the tag.
+
+// The wire names of the five states; the decoder is the inverse of the encoder (a state list carried by a
+// search cursor must come back as the same states: C14, C20).
+//@ func (State).String
+//@ props C14 C20
+//@ nopanic C13
+//@ requires s == Pending || s == Resolved || s == Rejected || s == Canceled || s == Timedout
+//@ ensures (s == Pending) == (result == "PENDING") && (s == Resolved) == (result == "RESOLVED") && (s == Rejected) == (result == "REJECTED") && (s == Canceled) == (result == "REJECTED_CANCELED") && (s == Timedout) == (result == "REJECTED_TIMEDOUT")
+
+//@ func (*State).UnmarshalJSON
+//@ props C14 C20
+//@ nopanic C13
+//@ requires s != nil
+//@ ensures result == nil && upper(jsonstr(data)) == "PENDING" ==> *s == Pending
+//@ ensures result == nil && upper(jsonstr(data)) == "RESOLVED" ==> *s == Resolved
+//@ ensures result == nil && upper(jsonstr(data)) == "REJECTED" ==> *s == Rejected
+//@ ensures result == nil && upper(jsonstr(data)) == "REJECTED_CANCELED" ==> *s == Canceled
+//@ ensures result == nil && upper(jsonstr(data)) == "REJECTED_TIMEDOUT" ==> *s == Timedout
+//@ ensures result == nil ==> upper(jsonstr(data)) == "PENDING" || upper(jsonstr(data)) == "RESOLVED" || upper(jsonstr(data)) == "REJECTED" || upper(jsonstr(data)) == "REJECTED_CANCELED" || upper(jsonstr(data)) == "REJECTED_TIMEDOUT"
